@@ -50,8 +50,11 @@ def gen(rng, tier):
         add("ss_rotate_revealed", ["x", b(n_old), "-"], "len=%d" % n_old); add("ss_set_revealed", ["x", b(n_old), b(21)], "len=%d" % n_old)
         add("ss_rotate", ["x", b(n_old), "-"], "len=%d" % n_old); add("ss_rotate_twice", ["x", b(n_old), "-"], "len=%d" % n_old); add("ss_reveal", ["x", b(n_old), "-"], "len=%d" % n_old)
         add("ss_rotate_move_rotate", ["x", b(n_old), "-"], "len=%d" % n_old)       # interrupted rotation, the object is moved, rotated again
+        add("ss_rotate_moveassign_read", ["x", b(n_old), "-"], "len=%d" % n_old)   # ... or move-assigned into an object that has already been read
     for t in HASHES:
         add("hmacctx_reuse", [t, b(BS[t] + 9), b(30)], "%s" % t)
+        for n1 in (0, 5, BS[t], BS[t] + 7):      # a copied context in mid-stream (its buffers have capacity == size) is continued under allocation failures
+            add("hashctx_fork", [t, b(n1), b(40)], "%s buffered=%d" % (t, n1 % BS[t])); add("hmacctx_fork", [t, b(20), b(2 * n1 + 10)], "%s msg=%d" % (t, 2 * n1 + 10))
     # the first secret_string operation of a fresh process (the process-wide key is created inside it), one child process per failing allocation
     add("ss_firstuse", ["x", b(40)], "fresh-process")
     return cases
